@@ -106,6 +106,20 @@ def run_case(case, ctx):
     from numdifftools.limits import Limit, Residue
     rng = np.random.default_rng(case['seed'])
     z0 = complex(case['z0'][0], case['z0'][1]) if case['z0'][1] else case['z0'][0]
+    # the same point in another legal type: Python int (an integer point), numpy scalar, 0-d array, complex with zero imaginary part
+    form = ['native', 'native', 'native', 'int', 'np_float', 'complex0', 'zero_d'][case['seed'] % 7]
+    z0_given = z0
+    if not isinstance(z0, complex) and form != 'native':
+        if form == 'int':
+            z0 = float(round(z0))
+            z0_given = int(z0)
+        elif form == 'np_float':
+            z0_given = np.float64(z0)
+        elif form == 'complex0':
+            z0_given = complex(z0, 0.0)
+        else:
+            z0_given = np.array(z0)
+        ctx.count('z0_given_as:' + form)
     g = g_fun(case['g'], case['a'])
     kernel, method, path, order = case['kernel'], case['method'], case['path'], case['order']
     opts = dict(case['opts'])
@@ -128,7 +142,7 @@ def run_case(case, ctx):
         rec = Recorder(f)
         try:
             with np.errstate(all='ignore'):
-                val, info = Residue(rec, pole_order=p, **kw)(z0)
+                val, info = Residue(rec, pole_order=p, **kw)(z0_given)
         except Exception as exc:
             ctx.reject('residue_raised', observed='%s: %s' % (type(exc).__name__, str(exc)[:150]),
                        exc_type=type(exc).__name__, path=path, complex_z0=isinstance(z0, complex))
@@ -173,7 +187,7 @@ def run_case(case, ctx):
             zin = zs.reshape(shapes[int(rng.integers(0, len(shapes)))])
             ctx.count('multidimensional_array_cases')
     else:
-        zin, regular, zs = z0, np.array([False]), np.array([z0])
+        zin, regular, zs = z0_given, np.array([False]), np.array([z0])
     L = Limit(rec, **kw)
     try:
         with np.errstate(all='ignore'):
